@@ -3,8 +3,10 @@ package checks
 import (
 	"fmt"
 	bcrpb "github.com/google/fhir/go/proto/google/fhir/proto/r4/core/resources/bundle_and_contained_resource_go_proto"
+	orgpb "github.com/google/fhir/go/proto/google/fhir/proto/r4/core/resources/organization_go_proto"
 	parpb "github.com/google/fhir/go/proto/google/fhir/proto/r4/core/resources/parameters_go_proto"
 	ppb "github.com/google/fhir/go/proto/google/fhir/proto/r4/core/resources/patient_go_proto"
+	perpb "github.com/google/fhir/go/proto/google/fhir/proto/r4/core/resources/person_go_proto"
 	"github.com/verily-src/fhirpath-go/fhirpath/verifh/ftab"
 	"google.golang.org/protobuf/types/known/anypb"
 	"sort"
@@ -522,13 +524,16 @@ func init() {
 						// children of primitives (every primitive kind, incl. the date-like ones that keep their value outside a `value` field)
 						"Patient.birthDate.id", "Patient.birthDate.extension", "Patient.birthDate.extension[0]", "Patient.birthDate[0]", "Patient.birthDate.first()", "Patient.deceased.id", "Patient.deceased.extension[0]",
 						"Patient.meta.lastUpdated.id", "Patient.meta.lastUpdated.extension[0]", "Patient.active.id", "Patient.active.extension[0]", "Patient.name[0].given[0].id", "Patient.name[0].given[0].extension[0]", "Patient.gender.extension[0]",
-						"Patient.multipleBirth.id", "Patient.telecom[0].rank.extension[0]", "Patient.birthDate.extension[0].value", "Patient.birthDate.extension('http://e1').value"}
+						"Patient.multipleBirth.id", "Patient.telecom[0].rank.extension[0]", "Patient.birthDate.extension[0].value", "Patient.birthDate.extension('http://e1').value",
+						// backbone components (their message types share short names with components of other resources)
+						"Patient.contact", "Patient.contact[0]", "Patient.contact[1]", "Patient.link", "Patient.link[0]", "Patient.communication[0]"}
 					values := []struct {
 						name string
 						v    fhir.Base
 					}{{"nil", nil}, {"String", fhir.String("x")}, {"Code", fhir.Code("official")}, {"Boolean", fhir.Boolean(true)}, {"Integer", fhir.Integer(-1)}, {"PositiveInt", fhir.PositiveInt(1)}, {"Decimal", &dtpb.Decimal{Value: "1.5"}},
 						{"Date", lib.ProtoDate("2020-01-01")}, {"HumanName", lib.NameA()}, {"ContactPoint", &dtpb.ContactPoint{}}, {"Reference", &dtpb.Reference{}}, {"Extension", &dtpb.Extension{}}, {"Coding", fhir.Coding("s", "c")}, {"Patient", lib.Patient()},
-						{"empty-Quantity", &dtpb.Quantity{}}, {"Id", fhir.ID("x")}}
+						{"empty-Quantity", &dtpb.Quantity{}}, {"Id", fhir.ID("x")},
+						{"Patient.Contact", &ppb.Patient_Contact{}}, {"Organization.Contact", &orgpb.Organization_Contact{}}, {"Person.Link", &perpb.Person_Link{}}, {"Person.GenderCode", &perpb.Person_GenderCode{Value: 1}}, {"Patient.Link", &ppb.Patient_Link{}}}
 					resources := []struct {
 						name string
 						mk   func() fhir.Resource
@@ -555,6 +560,8 @@ func init() {
 							if len(p.Telecom) > 0 {
 								p.Telecom[0].Rank = &dtpb.PositiveInt{Value: 1, Extension: ext()}
 							}
+							p.Contact = []*ppb.Patient_Contact{{Name: lib.NameA()}, {Name: lib.NameB()}}
+							p.Link = []*ppb.Patient_Link{{Other: &dtpb.Reference{Reference: &dtpb.Reference_Uri{Uri: fhir.String("Patient/2")}}}}
 							return p
 						}}}
 					for _, rs := range resources {
@@ -570,7 +577,7 @@ func init() {
 								for idx := -1; idx <= 4; idx++ {
 									c01Total(r, "patch.Insert", rs.name+"|value="+v.name, w("insert", v.name, idx), func() { patch.Insert(rs.mk(), p, v.v, idx) })
 								}
-								for _, name := range []string{"name", "given", "active", "gender", "rank", "value", "valueString", "extension", "id", "reference", "noSuch", "birth_date", "", "contained", "deceased", "use", "period", "text"} {
+								for _, name := range []string{"name", "given", "active", "gender", "rank", "value", "valueString", "extension", "id", "reference", "noSuch", "birth_date", "", "contained", "deceased", "use", "period", "text", "contact", "link"} {
 									c01Total(r, "patch.Add", rs.name+"|value="+v.name, w("add", name, v.name), func() { patch.Add(rs.mk(), p, name, v.v, &patch.Options{}) })
 								}
 							}
